@@ -64,7 +64,10 @@ def pair(a):
     _ints([a])
     return [a, a]
 
-FUNCTIONS = [add, cat, tup, first, word, boom, gsum, inc, pair]
+def kind(*a):
+    return "-".join(type(x).__name__ for x in a)
+
+FUNCTIONS = [add, cat, tup, first, word, boom, gsum, inc, pair, kind]
 '''
 
 TYPES_SRC = {"int": "int", "str": "str", "list": "List[int]", "any": "Any"}
@@ -91,6 +94,8 @@ def write_module(d, classes):
 def canon(v):
     if v is None or type(v) in (int, str):
         return v
+    if type(v) is bool:
+        return {"__bool__": v}
     if hasattr(v, "as_dict"):
         v = v.as_dict()
     if isinstance(v, dict):
@@ -209,6 +214,21 @@ def main():
                 else:
                     out.append("--%s=%s" % (it[1], render(it[2])))
             return out
+
+        def edit_lists(cfg, key):
+            try:
+                v = cfg.get(key)
+            except Exception:
+                return
+            if isinstance(v, list):
+                v.append(99)
+            dest = key.split(".init_args.")[0]
+            items = cfg.get(dest) if dest != key else None
+            if isinstance(items, list):
+                child = key[len(dest) + 1:]
+                for it in items:
+                    if hasattr(it, "get") and isinstance(it.get(child), list):
+                        it[child].append(99)
 
         def observe_save(p, cfg, outdir, obs):
             """save() in its default multifile mode; every file it wrote is read back and put in place of the
@@ -367,8 +387,31 @@ def main():
                         r2 = attempt(lambda: p.parse_args(["--cfg", text]))
                         obs["reparse"] = ["ok", canon_cfg(r2[1])] if r2[0] == "ok" else r2
                     observe_save(p, cfg, outdir, obs)
+                    # the caller goes on working with the configuration it got: lists found at link targets are edited
+                    # in place (whatever else holds the same object sees the edit)
+                    for l in case["links"]:
+                        edit_lists(cfg, l["tgt"])
                 else:
                     obs["parse"] = r
+                if case.get("second") is not None:
+                    x2 = case["second"]
+                    for name in env_keys:
+                        os.environ.pop(name, None)
+                    env_keys = []
+                    for k, v in x2["env"]:
+                        name = "APP_" + k.replace(".", "__").upper()
+                        os.environ[name] = render(v)
+                        env_keys.append(name)
+                    state["pre"] = None
+                    state["armed"] = True
+                    if x2["mode"] == "object":
+                        r3 = attempt(lambda: p.parse_object(x2["obj"]))
+                    else:
+                        argv2 = render_items(x2["argv"], case["decls"], indir)
+                        r3 = attempt(lambda: p.parse_args(argv2))
+                    state["armed"] = False
+                    obs["pre2"] = state["pre"]
+                    obs["parse2"] = ["ok", canon_cfg(r3[1])] if r3[0] == "ok" else r3
             finally:
                 state["armed"] = False
                 for name in env_keys:
